@@ -10,6 +10,7 @@
  * Gaussian noise realisations of exactly the declared size must be rejected
  * at a rate of the order of the significance (0.05): band [0.5 %, 25 %].
  */
+#include "archdep.h"
 #include <complex.h>
 #include <errno.h>
 #include <math.h>
@@ -17,6 +18,7 @@
 #include <stdlib.h>
 #include <string.h>
 #include <vnacal.h>
+#include <vnacal_internal.h>
 #include "vf.h"
 #include "calsim.h"
 
@@ -88,11 +90,82 @@ static int make_scenario(cs_scenario *sc, vnacal_type_t type, int rows,
     return 0;
 }
 
+/*
+ * column-system types, 2x2: short, open, match on both ports and a through
+ * (each column: 5 equations, 5 unknowns), then five more reflects on port
+ * `heavy' only: its column is over-determined, the other one exactly
+ * determined
+ */
+static int make_asym(cs_scenario *sc, vnacal_type_t type, int heavy);
+/* the same with one more reflect on the other port, measured on that port
+   only (1 x 1): its column becomes over-determined too, nothing else sees it */
+static int make_asym_plus(cs_scenario *sc, vnacal_type_t type, int heavy)
+{
+    cs_param p;
+    cs_std *st;
+
+    if (make_asym(sc, type, heavy) != 0 || sc->nparam >= CS_MAXPARAM ||
+	    sc->nstd >= CS_MAXSTD)
+	return -1;
+    memset(&p, 0, sizeof(p));
+    p.kind = CSP_SCALAR; p.c0 = -0.35 + 0.55 * I; p.handle = -1;
+    sc->param[sc->nparam] = p;
+    st = &sc->std[sc->nstd];
+    memset(st, 0, sizeof(*st));
+    st->entry = CSE_SINGLE; st->np = 1; st->port[0] = 3 - heavy;
+    st->sp[0] = sc->nparam;
+    st->abbrev_rows = st->abbrev_cols = true;
+    st->id = sc->nstd + 1;
+    ++sc->nparam;
+    ++sc->nstd;
+    return 0;
+}
+
+static int make_asym(cs_scenario *sc, vnacal_type_t type, int heavy)
+{
+    static const double complex extra[5] = { 0.3 + 0.4 * I, -0.5 * I, 0.6,
+	-0.2 + 0.7 * I, 0.45 - 0.45 * I };
+    int n = 0;
+
+    if (make_scenario(sc, type, 2, 2, 0, 1) != 0)
+	return -1;
+    for (int k = 0; k < sc->nstd; ++k)	/* drop the line */
+	if (sc->std[k].entry != CSE_LINE)
+	    sc->std[n++] = sc->std[k];
+    sc->nstd = n;
+    for (int k = 0; k < 5; ++k) {
+	cs_param p;
+	cs_std *st;
+	if (sc->nparam >= CS_MAXPARAM || sc->nstd >= CS_MAXSTD)
+	    return -1;
+	memset(&p, 0, sizeof(p));
+	p.kind = CSP_SCALAR; p.c0 = extra[k]; p.handle = -1;
+	sc->param[sc->nparam] = p;
+	st = &sc->std[sc->nstd];
+	memset(st, 0, sizeof(*st));
+	st->entry = CSE_SINGLE; st->np = 1; st->port[0] = heavy;
+	st->sp[0] = sc->nparam;
+	++sc->nparam;
+	++sc->nstd;
+    }
+    for (int k = 0; k < sc->nstd; ++k)
+	sc->std[k].id = k + 1;
+    /* a poor source match on the port with the redundancy: the equations'
+       residuals and the measurements then differ by a large factor, which
+       is what the V matrices account for */
+    for (int f = 0; f < sc->vna.nf; ++f)
+	sc->vna.net[f][heavy - 1].Em[(heavy - 1) * sc->vna.P + heavy - 1] =
+	    0.75 * cexp(0.3 * I);
+    return 0;
+}
+
 typedef struct {
     int rc, err_no, nonwarn;
     cs_c S[CS_MAXF][NS];
     int applied;
     char msg[160];
+    int nterms;			/* solved error terms at the first frequency */
+    double complex terms[8 * NS];
 } res_t;
 
 /*
@@ -214,6 +287,12 @@ static void run_cal(cs_scenario *sc, bool model, int gk, double snf,
     if (vnacal_add_calibration(vcp, "c18", vnp) >= 0) {
 	int ci = vnacal_find_calibration(vcp, "c18");
 	cs_c Sd[CS_MAXF][NS];
+	const vnacal_calibration_t *calp = _vnacal_get_calibration(vcp, ci);
+	if (calp != NULL && calp->cal_error_terms <= 8 * NS) {
+	    o->nterms = calp->cal_error_terms;
+	    for (int t = 0; t < o->nterms; ++t)
+		o->terms[t] = calp->cal_error_term_vector[t][0];
+	}
 	for (int f = 0; f < v->nf; ++f)
 	    cs_dut(v, 1, f, Sd[f]);
 	/* DUT measured without noise */
@@ -483,6 +562,122 @@ static void run_ens(int tier, int t, vf_result *r)
 		}
 	    }
 	}
+    }
+    /*
+     * column-system types: the same redundancy on port 1 only and on port 2
+     * only.  Nothing distinguishes the two ports but their number, so the
+     * rejection counts of the two mirror scenarios come from the same
+     * distribution: their difference is judged against five standard
+     * deviations of the difference of two binomial counts.
+     */
+    if (types[t] == VNACAL_UE14 || types[t] == VNACAL_E12) {
+	static const double nfv[3] = { 1e-4, 1e-6, 1e-3 };
+	static const double trv[3] = { 1e-3, 1e-3, 1e-3 };
+	const int n = 4 * nreal;
+	g_net = 1;	/* strong mismatch: equation and measurement units
+			   differ most */
+	for (int cfg = 0; cfg < 3 && r->status == VF_OK; ++cfg) {
+	    long rej[2] = { 0, 0 };
+	    int usable = 1;
+	    for (int side = 0; side < 2 && usable; ++side) {
+		long double margin; int eqs, unk;
+		if (make_asym(&sc, types[t], side + 1) != 0 ||
+			!cs_identifiable(&sc, (1u << sc.nstd) - 1u, &margin,
+			    &eqs, &unk) || margin < 1e-2L) {
+		    usable = 0;
+		    break;
+		}
+		sc.sigma_nf = nfv[cfg];
+		sc.sigma_tr = trv[cfg];
+		for (int k = 1; k <= n; ++k) {
+		    sc.gauss_real = k + 1000 * cfg + 500000;
+		    run_cal(&sc, true, 0, nfv[cfg], trv[cfg], false, 0.05,
+			    &o, r);
+		    ++trials;
+		    if (o.rc == -1 && o.err_no == EDOM) {
+			++rejected;
+			++rej[side];
+		    } else if (o.rc != 0)
+			++other;
+		}
+		sc.gauss_real = 0;
+	    }
+	    if (!usable)
+		continue;
+	    double pp = (double)(rej[0] + rej[1]) / (2.0 * n);
+	    double sd = sqrt(2.0 * n * pp * (1.0 - pp));
+	    vf_note("  mirror pair nf %g tr %g: rejected %ld / %ld of %d "
+		    "(sd of the difference %.1f)", nfv[cfg], trv[cfg], rej[0],
+		    rej[1], n, sd);
+	    if (fabs((double)(rej[0] - rej[1])) > 5.0 * sd + 4.0) {
+		snprintf(sig, sizeof(sig), "mirror-rates:%s", tname);
+		vf_fail(r, sig, "2x2, short/open/match on both ports and a "
+			"through, five more reflects on one port (sigma_nf "
+			"%g, sigma_tr %g, %d noise realisations each): "
+			"rejected %ld times with the extra reflects on port "
+			"1 and %ld times with them on port 2", nfv[cfg],
+			trv[cfg], n, rej[0], rej[1]);
+	    }
+	}
+    }
+    /*
+     * column-system types: every column has its own terms and its own
+     * equations.  Making the exactly determined column over-determined
+     * (one more reflect, seen by that column only) leaves the data of the
+     * other column as they were: its solved terms must not move.
+     */
+    if (types[t] == VNACAL_UE14 || types[t] == VNACAL_E12) {
+	static cs_scenario sx, sy;
+	static res_t ox, oy;
+	vnacal_layout_t vl;
+	long compared = 0;
+	g_net = 2;
+	_vnacal_layout(&vl, types[t], 2, 2);
+	for (int heavy = 1; heavy <= 2 && r->status == VF_OK; ++heavy) {
+	    long double margin; int eqs, unk;
+	    if (make_asym(&sx, types[t], heavy) != 0 ||
+		    make_asym_plus(&sy, types[t], heavy) != 0 ||
+		    !cs_identifiable(&sx, (1u << sx.nstd) - 1u, &margin,
+			&eqs, &unk) || margin < 1e-2L)
+		continue;
+	    for (int k = 1; k <= 16 && r->status == VF_OK; ++k) {
+		const int c = heavy - 1;	/* the column that must not move */
+		int lo, hi;
+		double worst = 0;
+		sx.sigma_nf = sy.sigma_nf = 1e-3;
+		sx.sigma_tr = sy.sigma_tr = 2e-3;
+		sx.gauss_real = sy.gauss_real = 700000 + k;
+		run_cal(&sx, true, 0, 1e-3, 2e-3, false, 1e-6, &ox, r);
+		run_cal(&sy, true, 0, 1e-3, 2e-3, false, 1e-6, &oy, r);
+		if (ox.rc != 0 || oy.rc != 0 || ox.nterms == 0 ||
+			ox.nterms != oy.nterms)
+		    continue;
+		if (types[t] == VNACAL_UE14) {
+		    lo = VL_UM14_OFFSET(&vl, c);
+		    hi = VL_UM14_OFFSET(&vl, c + 1);
+		} else {
+		    lo = VL_EL12_OFFSET(&vl, c);
+		    hi = VL_EL12_OFFSET(&vl, c + 1);
+		}
+		for (int i = lo; i < hi && i < ox.nterms; ++i) {
+		    double e = cabs(ox.terms[i] - oy.terms[i]) /
+			(cabs(ox.terms[i]) + 1e-3);
+		    if (!(e <= worst))
+			worst = e;
+		}
+		++compared;
+		if (!(worst <= 1e-9)) {
+		    snprintf(sig, sizeof(sig), "column-independence:%s",
+			    tname);
+		    vf_fail(r, sig, "2x2 with redundancy on port %d only: "
+			    "one more reflect on port %d, measured on that "
+			    "port only, moves the solved terms of column %d "
+			    "by %.3e (relative; noise realisation %d)", heavy,
+			    3 - heavy, heavy, worst, k);
+		}
+	    }
+	}
+	vf_note("  column independence: %ld pairs compared", compared);
     }
     if (out_trials > 0 && 2 * out_rejected < out_trials) {
 	snprintf(sig, sizeof(sig), "outlier-rate:%s", tname);
